@@ -305,6 +305,20 @@ def run_case(case):
         state['posted'] = 0
         state['started'] = False
     install(orc)
+    gate_positions = []
+    if model == 'SIvR':
+        import epydemic.sivr_model as sivr_mod
+
+        class GateProxy:
+            # the random values SIvR.infect draws, tagged by their position in the stream of rng.random() values
+            def random(self_):
+                v = orc.random()
+                gate_positions.append(len(orc.values('random')) - 1)
+                return v
+
+            def __getattr__(self_, n):
+                return getattr(orc, n)
+        sivr_mod.rng = GateProxy()
     kscript.install_draw_recorder(rec)
     saved_math = sd.math
     sd.math = kscript.LogShim(rec)
@@ -323,7 +337,7 @@ def run_case(case):
     if case.get('seq') and isinstance(res, dict) and Monitor.OBSERVATIONS in res:
         monitor = {'times': list(res[Monitor.OBSERVATIONS]),
                    'series': [list(res.get(Monitor.timeSeriesForLocus(sp_[0]), [])) for sp_ in lspecs]}
-    obs = {'exception': exc, 'entries': entries, 'loci_specs': lspecs, 'monitor': monitor, 'started_rand': state.get('started_rand'), 'snaps': snaps, 'final': final, 'registration': registration,
+    obs = {'exception': exc, 'gate_positions': gate_positions, 'entries': entries, 'loci_specs': lspecs, 'monitor': monitor, 'started_rand': state.get('started_rand'), 'snaps': snaps, 'final': final, 'registration': registration,
            'results': {k: v for k, v in res.items() if isinstance(v, (int, float))} if isinstance(res, dict) else {},
            'time': md.get(Dynamics.TIME), 'events': md.get(Dynamics.EVENTS), 'steps': md.get(SynchronousDynamics.TIMESTEPS_WITH_EVENTS, 0),
            'rands': [e[1] for e in orc.values('random')], 'lns': list(rec.logs), 'draws': [d[1] for d in rec.draws],
